@@ -53,7 +53,7 @@ static std::string render(const Ev& e);
 // palette
 // ------------------------------------------------------------------------------------------------
 constexpr int kNumPal = 12;         // 0..7 static C++ types, 8..11 described at run time
-constexpr int kNumShared = 2;
+constexpr int kNumShared = 3;
 constexpr int64_t kDefaultBase = 1000; // default-constructed value of instrumented palette type p is 1000+p
 
 struct P0 { int64_t v; };
@@ -83,6 +83,9 @@ using N5 = Inst<5, 64, false>;
 
 struct S0 : TSharedComponentTag<S0> { int64_t v = 0; S0() = default; explicit S0(int64_t x) : v{x} {} bool operator==(const S0& o) const noexcept { return v == o.v; } };
 struct S1 : TSharedComponentTag<S1> { int64_t v = 0; S1() = default; explicit S1(int64_t x) : v{x} {} bool operator==(const S1& o) const noexcept { return v == o.v; } };
+struct S2 : TSharedComponentTag<S2> { int64_t v = 0; S2() = default; explicit S2(int64_t x) : v{x} {} bool operator==(const S2& o) const noexcept { return v == o.v; } };
+// EXPR is a macro taking the shared type
+#define SHARED_DISPATCH(sp, EXPR) ((sp) == 0 ? EXPR(S0) : (sp) == 1 ? EXPR(S1) : EXPR(S2))
 
 // run-time described types: 8 bytes, align 8, functions chosen by flag bits
 enum DynFlags { kDynCreate = 1, kDynCopy = 2, kDynMove = 4, kDynMoveCtor = 8, kDynDestroy = 16, kDynDefault = 32 };
@@ -242,8 +245,8 @@ static void do_register(int pal, int flags) {
 static void do_register_shared(int sp) {
     Driver& d = *g_drv;
     if (d.sregistered[sp]) return;
-    d.sid[sp] = sp == 0 ? ComponentFactory::instance().registerSharedComponent<S0>()
-                        : ComponentFactory::instance().registerSharedComponent<S1>();
+#define X_REG(T) ComponentFactory::instance().registerSharedComponent<T>()
+    d.sid[sp] = SHARED_DISPATCH(sp, X_REG);
     d.sregistered[sp] = true;
 }
 
@@ -262,7 +265,7 @@ static std::string shared_str(const SharedComponentsInfo& info) {
         if (i) s += ",";
         const void* ptr = i < info.data_.size() ? info.data_[i].get() : nullptr;
         int64_t v = 0;
-        if (ptr) v = (info.ids_[i] == g_drv->sid[0] && g_drv->sregistered[0]) ? static_cast<const S0*>(ptr)->v : static_cast<const S1*>(ptr)->v;
+        if (ptr) v = static_cast<const S0*>(ptr)->v;   // S0, S1, S2 have the same layout; the slot's type is whatever ids_ claims
         s += std::to_string(info.ids_[i].toInt()) + ":" + inst_name(ptr) + ":" + std::to_string(v);
     }
     // ids_ shorter than data_ (merge defect) shows up as extra data entries
@@ -454,7 +457,7 @@ static void parse_pals(std::istringstream& in, ComponentIdMask& mask, SharedComp
         if (tok[0] == 's') {
             int sp = std::stoi(tok.substr(1));
             do_register_shared(sp);
-            if (sp == 0) shared.add(g_drv->sid[0], std::make_shared<S0>()); else shared.add(g_drv->sid[1], std::make_shared<S1>());
+            if (sp == 0) shared.add(g_drv->sid[0], std::make_shared<S0>()); else if (sp == 1) shared.add(g_drv->sid[1], std::make_shared<S1>()); else shared.add(g_drv->sid[2], std::make_shared<S2>());
         } else {
             int p = std::stoi(tok);
             do_register(p, 0);
@@ -591,14 +594,17 @@ static std::string run_script(const std::vector<std::string>& lines, std::ostrea
         }
         else if (op == "clone") { std::string h; in >> h; Entity e = parse_handle(h); Entity c = em.clone(e); if (c.isNull()) R << "null"; else R << "#" << issue(c) << " " << c.id().toInt() << ":" << c.version().toInt(); }
         else if (op == "assignshared") { std::string h; int sp; int64_t v; in >> h >> sp >> v; Entity e = parse_handle(h); do_register_shared(sp);
-            if (sp == 0) em.assign<S0>(e, v); else em.assign<S1>(e, v); }
+            if (sp == 0) em.assign<S0>(e, v); else if (sp == 1) em.assign<S1>(e, v); else em.assign<S2>(e, v); }
         else if (op == "removeshared") { std::string h; int sp; in >> h >> sp; Entity e = parse_handle(h); do_register_shared(sp);
-            bool r = sp == 0 ? em.removeSharedComponent<S0>(e) : em.removeSharedComponent<S1>(e); R << (r ? 1 : 0); }
+#define X_REM(T) em.removeSharedComponent<T>(e)
+            bool r = SHARED_DISPATCH(sp, X_REM); R << (r ? 1 : 0); }
         else if (op == "getshared") { std::string h; int sp; in >> h >> sp; Entity e = parse_handle(h); do_register_shared(sp);
-            bool has = sp == 0 ? em.hasComponent<S0>(e) : em.hasComponent<S1>(e);
+#define X_HAS(T) em.hasComponent<T>(e)
+            bool has = SHARED_DISPATCH(sp, X_HAS);
             R << (has ? 1 : 0);
-            if (em.isEntityValid(e)) { const void* p = sp == 0 ? static_cast<const void*>(em.getSharedComponent<S0>(e)) : static_cast<const void*>(em.getSharedComponent<S1>(e));
-                R << " " << (p ? inst_name(p) : std::string("null")); if (p) R << ":" << (sp == 0 ? static_cast<const S0*>(p)->v : static_cast<const S1*>(p)->v); } }
+#define X_GET(T) static_cast<const void*>(em.getSharedComponent<T>(e))
+            if (em.isEntityValid(e)) { const void* p = SHARED_DISPATCH(sp, X_GET);
+                R << " " << (p ? inst_name(p) : std::string("null")); if (p) R << ":" << static_cast<const S0*>(p)->v; } }
         else if (op == "getconst" || op == "getmut" || op == "set") {
             std::string h; int p; in >> h >> p; Entity e = parse_handle(h); do_register(p, 0);
             if (op == "getconst") { const void* ptr = em.getComponent<true>(e, d.cid[p]); if (!ptr) R << "null"; else if (has_value(p)) R << read_value(ptr); else R << "_"; }
